@@ -14,3 +14,5 @@ import Solvor.Pack.Theorems
 #print axioms Solvor.Pack.knapsack_mirror_feasible
 #print axioms Solvor.Pack.knapsack_lossless_optimal
 #print axioms Solvor.Pack.minBinsP_le
+#print axioms Solvor.Pack.knapsack_near_scaled_optimal
+#print axioms Solvor.Pack.knapsack_lossless_near_optimal
